@@ -654,6 +654,13 @@ Proof.
   unfold ecdsa_params_strong, vfields. eapply ecdsa_params_level. exact EP.
 Qed.
 
+Lemma strength_xaes_gcm kd prefix idreq : usable kd prefix idreq = true -> is_url kd url_xaes_gcm ->
+  aes_size_ok (blen (get_len 3 (vfields kd))).
+Proof.
+  intros H U. change (kd_url kd = u_xaes_gcm) in U. dispatch H U. peel H C P.
+  unfold vfields, aes_size_ok. unfold aes_16_32, aes_k16, aes_k32 in P. lia.
+Qed.
+
 Theorem usable_strength kd prefix idreq :
   usable kd prefix idreq = true -> strength_ok kd.
 Proof.
@@ -669,7 +676,8 @@ Proof.
   split; [intros U; eapply strength_rsa_pkcs1; eauto|].
   split; [intros U; eapply strength_rsa_pss; eauto|].
   split; [intros U; eapply strength_ecdsa_pub; eauto|].
-  intros U; eapply strength_ecdsa_priv; eauto.
+  split; [intros U; eapply strength_ecdsa_priv; eauto|].
+  intros U; eapply strength_xaes_gcm; eauto.
 Qed.
 
 (* Regression (defect fixed in /repo, commit 067e856): an RSA public key whose
